@@ -662,6 +662,8 @@ Proof.
     assert (I0 : Inv_tr (set_ready s rest)).
     { apply inv_same with (s := s); [exact I| |reflexivity]. intros. fr_simple. left. rewrite E. right. assumption. }
     apply run_item_inv; [exact I0|]. intros ->. cbn. destruct I as [_ I2 _ _ _]. apply I2. rewrite E. left. reflexivity.
+  - inversion Hs; subst. apply inv_same with (s := s); [exact I|intros; apply fr_transport_close|].
+    unfold transport_close. destruct (tr_closing s); reflexivity.
 Qed.
 
 Lemma init_inv : Inv_tr (init c).
